@@ -12,6 +12,9 @@ ENGINES = [
     {'name': 'WIRE', 'path': 'harness/props/c10.py', 'serves_properties': ['C10'],
      'kind_free_text': 'scripted sockets: real send_msg/recv_msg over generated segmentation/truncation plans (Hypothesis + exhaustive short streams)'},
 ]
+ENGINES.append({'name': 'POOLSIM', 'path': 'harness/poolsim.py', 'serves_properties': ['C07', 'C08'],
+                'kind_free_text': 'fake workers speaking the real result-pipe protocol + tape-driven deterministic scheduler behind the real Pool.run; '
+                                  'Hypothesis tapes and exhaustive stateless DFS of small configurations; conformance traces against real workers'})
 NOTES = 'Runner: ./check <ID> --tier quick|thorough [--replay f]; exit 0 held, 1 VIOLATION, 2 harness error. See DESIGN.md.'
 
 CHECKS = {
@@ -24,5 +27,22 @@ CHECKS = {
                 'never a value, never a spin". Exploration, not proof: long streams are sampled.',
         'note': 'Trusts the socket model (recv returns 1..n bytes, b"" at EOF, ConnectionResetError on RST); real kernels are not in the loop.',
     },
+}
+CHECKS['C07'] = {
+    'engine': 'POOLSIM', 'level': 'exploration', 'design_ref': 'DESIGN.md 3.2, 4 (C07)',
+    'technique': 'property-based testing: Hypothesis-generated schedule tapes + exhaustive DFS of all schedules of small pool configurations, reference multiset oracle',
+    'text': 'The real Pool.run is executed against simulated workers whose every progress/death/ready-order decision is taken from a generated tape; '
+            'all schedules of small configurations (<=3 workers, <=3 inputs, 1 kill) are enumerated exhaustively, larger ones are sampled. Oracle: the run '
+            'ends by return or PoolError (no internal error, no deadlock, no livelock) and, with retry, the results are exactly the multiset f(inputs).',
+    'note': 'Trusts that the simulated workers follow the real result-pipe protocol (checked every run by trace equivalence with real thread/process/remote '
+            'workers) and that Pool yields control only at enqueue and wait.',
+}
+CHECKS['C08'] = {
+    'engine': 'POOLSIM', 'level': 'exploration', 'design_ref': 'DESIGN.md 3.2, 4 (C08)',
+    'technique': 'property-based testing over schedule tapes with an event-log oracle (who was handed what, who answered, who died)',
+    'text': 'Same simulated schedule space as C07 with retry and return_results on/off. From the scheduler log the oracle decides: PoolError only when no live '
+            'worker would take the unfinished inputs; partial/returned results are genuine and at most one per input; with retry off every missing input was '
+            'handed (or being handed) to a worker that died without answering it; return_results=False returns None.',
+    'note': 'Two open known findings (refusing enqueue_fn) are matched by symptom+trigger; same trusted base as C07.',
 }
 NOT_APPLICABLE = {}
